@@ -637,18 +637,21 @@ fn parse_expr_unaryop(
                 }
                 ast::UnaryOp::PostfixIncrement => {
                     enforce_increment_type(expr_ty, op, base_location, context)?;
+                    // The result is the old value which does not keep modifiers like volatile
+                    let value_ty = context.module.type_registry.remove_modifier(expr_ty.0);
                     (
                         ir::IntrinsicOp::PostfixIncrement,
                         expr_ir,
-                        expr_ty.0.to_rvalue(),
+                        value_ty.to_rvalue(),
                     )
                 }
                 ast::UnaryOp::PostfixDecrement => {
                     enforce_increment_type(expr_ty, op, base_location, context)?;
+                    let value_ty = context.module.type_registry.remove_modifier(expr_ty.0);
                     (
                         ir::IntrinsicOp::PostfixDecrement,
                         expr_ir,
-                        expr_ty.0.to_rvalue(),
+                        value_ty.to_rvalue(),
                     )
                 }
                 ast::UnaryOp::Plus | ast::UnaryOp::Minus => {
